@@ -1,4 +1,4 @@
 From Coq Require Import Extraction ExtrOcamlBasic.
 From Verif Require Import Codecs.Model.
 Extraction Language OCaml.
-Extraction "model.ml" parse_rtr serialize_rtr bfd_unmarshal bfd_marshal split_mrt split_bmp.
+Extraction "model.ml" parse_rtr serialize_rtr new_pfx bfd_unmarshal bfd_marshal split_mrt split_bmp.
